@@ -3,6 +3,7 @@ import RimuProofs.Lemmas.PatLemmas
 import RimuProofs.Lemmas.Strings
 import RimuProofs.Lemmas.FrameInline
 import RimuProofs.Facts
+import RimuProofs.Regex.Leftmost
 
 /-!
 # C07  Inline markup renders to exactly the intended element structure
@@ -14,6 +15,10 @@ Universal part (every text, every definition table, every nested renderer):
 * **earlier constructs are never re-interpreted by later ones**: a replaced fragment is marked done and every later
   definition, and the quote pass, returns it untouched (`done_fragment_is_opaque`); definitions are applied in table
   order (`definitions_applied_in_order`), so links and images take precedence over tags, URLs and quotes;
+* **each replacement pass takes the leftmost match**: the text before a replaced fragment holds no position at which
+  the definition's pattern matches (`replacement_takes_the_leftmost_match`), and a text that is left untouched holds
+  none at all (`untouched_text_has_no_match`) - `search` is characterised as the leftmost successful `match`
+  (`Regex/Leftmost.lean`), which is as much completeness as the matcher has;
 * text outside markup is escaped (C03 lemmas).
 The element structure of each construct kind (the 7 quotes, the 11 replacement forms) for generated terms is
 evaluated in the kernel on instances and checked by the term-grammar oracle; a grammar-level theorem is not proved.
@@ -21,6 +26,26 @@ evaluated in the kernel on instances and checked by the term-grammar oracle; a g
 
 namespace Props.C07
 open Rimu Rx Py
+
+/-- **A replacement pass takes the leftmost match of its pattern**: at no earlier position does the pattern match. -/
+theorem replacement_takes_the_leftmost_match (p : Pat) (text : Str) (start : Nat) (mt : Match)
+    (h : p.search text start = some mt) :
+    matchAt text.toArray p.re p.ngroups mt.start = some mt.res ∧
+    ∀ q, start ≤ q → q < mt.start → matchAt text.toArray p.re p.ngroups q = none := by
+  obtain ⟨_, _, hr⟩ := Pat.search_some h
+  exact search_leftmost hr
+
+/-- **A text in which a pattern is not found holds no match of it at any position.** -/
+theorem untouched_text_has_no_match (p : Pat) (text : Str) (h : p.search text = none) :
+    ∀ q, q ≤ text.length → matchAt text.toArray p.re p.ngroups q = none := by
+  have hn : Rx.search text.toArray p.re p.ngroups 0 = none := by
+    unfold Pat.search at h
+    dsimp only at h
+    split at h
+    · cases h
+    · assumption
+  intro q hq
+  exact search_none (Nat.zero_le _) hn q (Nat.zero_le _) (by simpa using hq)
 
 /-- the source text a fragment stands for -/
 def srcOf (f : Fragment) : Str := if f.done then f.verbatim else f.text
